@@ -123,6 +123,21 @@ func c19Worker(args []string) {
 	if err != nil {
 		fatal("%v", err)
 	}
+	// 3 (or 5) blocks after the authority: the token's slices then have spare capacity
+	// (Go grows them 1, 2, 4, 8), which is what aliasing bugs need in order to show
+	extra := 2
+	if seed%2 == 1 {
+		extra = 4
+	}
+	for k := 0; k < extra; k++ {
+		bk := t1.CreateBlock()
+		fk, _ := p.Fact(fmt.Sprintf(`seen("step%d")`, k), nil)
+		bk.AddFact(fk)
+		t1, err = t1.Append(detReader{rng.Fork()}, bk.Build())
+		if err != nil {
+			fatal("%v", err)
+		}
+	}
 	bs, _ := t1.Serialize()
 	// freshly unmarshalled: the decoder leaves spare capacity behind the block bytes
 	tok, err := biscuit.Unmarshal(bs)
@@ -188,7 +203,7 @@ func c19Worker(args []string) {
 
 func runC19(res *Result, rng *RNG, tier string, outDir string) {
 	res.Rule = "stress under the race detector (harness rebuilt with -race from the working tree): G goroutines x R rounds of randomly chosen operations of the property (verify, authorize on an own authorizer with shared parsed values, query, String/Code, GetBlockID with fresh strings, create/fill/build block + append, seal, serialize + revocation ids, parsing with one shared parser instance) on ONE shared token freshly unmarshalled from bytes (so spare capacity exists behind the stored block bytes). Oracle: any report of the race detector, any goroutine outcome differing from the outcome of the same operation sequence run alone, any panic. Non-trivial = every round (each is an operation racing with G-1 others); distinct by (run seed, goroutine, round)."
-	runs, ng, rounds := 6, 8, 25
+	runs, ng, rounds := 4, 8, 25
 	if tier == "thorough" {
 		runs, ng, rounds = 40, 16, 60
 	}
